@@ -209,14 +209,25 @@ def c15(run):
 # ======================================================================================================
 # maps, bitmaps, tilesets, PRT
 
+def _map_edit(run, own):
+    g = vlib.generate("MapEdit", {"Depth": 3 if run.thorough else 2}, invariants=("Export",), properties=("CellFrame", "LavaFrame", "VerFrame", "TrimFrame"), workers=8)
+    run.add_model(g)
+    run.sample({"id": g["records"][7]["id"], "edits": g["records"][7]["steps"][0]["edits"]})
+    r = vlib.run_scenarios(run.harness("scen"), g["file"], run.pid)
+    run.traces += r["scenarios"]; run.steps += r["steps"]; run.add_mismatches(r["mismatches"], own)
+    run.part("MapEdit (edit state machine: every edit sequence to the depth bound from two maps)", behaviours=g["n"], tlc_states=g["states"], replayed=r["scenarios"])
+
+
 def c06(run):
-    run.scen("MC_Map", {"Tier": '"%s"' % run.tier},
-             own=lambda m: site_of(m).startswith(("map_roundtrip", "map_edits", "scenario")) and m["kind"] != "getter")
+    own = lambda m: site_of(m).startswith(("map_roundtrip", "map_edits", "scenario")) and m["kind"] != "getter"
+    run.scen("MC_Map", {"Tier": '"%s"' % run.tier}, own=own)
+    _map_edit(run, own)
 
 
 def c16(run):
-    run.scen("MC_Map", {"Tier": '"%s"' % run.tier},
-             own=lambda m: site_of(m).startswith(("map_probe", "map_edits/cell", "map_edits/lava", "scenario")))
+    own = lambda m: site_of(m).startswith(("map_probe", "map_edits/cell", "map_edits/lava", "scenario"))
+    run.scen("MC_Map", {"Tier": '"%s"' % run.tier}, own=own)
+    _map_edit(run, own)
 
 
 def c07(run):
